@@ -34,12 +34,38 @@ class MyDict(dict):
     pass
 
 
+class StrEnum_(str, enum.Enum):        # str mix-in: str(StrEnum_.RED) is not 'red'
+    RED = 'red'
+
+
+class LoudStr(str):
+    def __str__(self):
+        return 'overridden'
+
+
+class LoudInt(int):
+    def __int__(self):
+        return 99
+
+    def __index__(self):
+        return 99
+
+
+class LoudFloat(float):
+    def __float__(self):
+        return 9.5
+
+
 ATOMS = [None, False, True, 0, 1, 2, 1.0, -0.0, 2.5, '', '0', '1', 'a', 'true', 2 ** 63, 2 ** 53,
          2 ** 53 + 1,
-         float('inf'), -float('inf')]
-SUBS = [Color.RED, MyStr('a'), MyInt(1), MyFloat(1.0), MyList([1]), MyDict({'a': 1})]
+         float('inf'), -float('inf'),
+         # a surrogate PAIR as two code points (json combines it), lone surrogates (kept)
+         '\ud83d\ude00', 'x\ud83d\ude00y', '\ud83d', '\ude00\ud83d']
+SUBS = [Color.RED, MyStr('a'), MyInt(1), MyFloat(1.0), MyList([1]), MyDict({'a': 1}),
+        StrEnum_.RED, LoudStr('abc'), LoudInt(5), LoudFloat(2.5)]
 KEYS = ['a', '0', '1', 1, 1.0, True, None, 2.5, Color.RED, MyInt(1), MyFloat(2.5), MyStr('a'),
-        float('inf'), -float('inf'), float('nan'), False, 0, 0.0, -0.0]
+        float('inf'), -float('inf'), float('nan'), False, 0, 0.0, -0.0, StrEnum_.RED, LoudStr('abc'),
+        LoudInt(5), LoudFloat(2.5)]
 
 
 def typed_eq(a, b):
